@@ -56,7 +56,10 @@ def scripts(rng, tmpdir):
     sc = calsim.Scenario(rng, 'E12', 2, 1, 1, form='m').begin()
     sc.lines.append('cal new_set_m_error 0 1 N S %s T %s' % (vlib.d2h(1e-4), vlib.d2h(1e-3)))
     sc.solt().solve().add_calibration(b'e12')
-    sc.lines += ['cal new_free 0', 'cal delete_calibration 0 0', 'cal free 0']
+    # solve again and add under the same name (replace in place), then under a new one
+    sc.solve().add_calibration(b'e12')
+    sc.solve().add_calibration(b'second')
+    sc.lines += ['cal find_calibration 0 ' + h('e12'), 'cal get_info 0 0', 'cal new_free 0', 'cal delete_calibration 0 0', 'cal free 0']
     S.append(('calibration-E12-merror', sc.lines))
     return S
 
